@@ -1,6 +1,7 @@
 import FlatModel.Driver.Engine
 import FlatModel.Model.Forms
 import FlatModel.Model.Serde
+import FlatModel.Model.ItemOps
 /-! Builders for the per-entry driver hooks (`Extra`): which forms exist, how read items answer. -/
 namespace FC
 open Region
@@ -68,6 +69,48 @@ variable {R V I : Type} [Region R V I] [Wire V] [Wire I]
 def Extra.withCmp (e : Extra R V I) : Extra R V I :=
   { e with cmpItems := fun a i _ b j _ =>
       cmpBy (fun x y => valLt (Wire.toVal x) (Wire.toVal y)) (fun x y => Wire.toVal x == Wire.toVal y) a i b j }
+end
+
+/-! ### read items through the item model (Model/Items2.lean via Model/ItemOps.lean)
+
+`item … owned` and `item … cloneonto <target>` are answered by the `IntoOwned` operations of the item the
+region type issues (`OptionItem.cloneOnto`, `ResultItem.cloneOnto`, `TupleItem.cloneOnto`,
+`SliceItem.cloneOnto`, `Wrapped.cloneOnto`, …, nested as the Rust impls nest), not by `index`: a difference
+between those definitions and the crate is a model disagreement in C14 / C13 / C01 …
+`Props/C14c.lean` shows that under the region invariant both answers coincide. -/
+section
+variable {R V I X : Type} [Region R V I] [ItemOps R X] [Wire V]
+
+def itemOpsOp (r : R) (i : I) (borrowed : Bool) (op arg : String) : Option String :=
+  match op with
+  | "owned" => some (replyVal ((ItemOps.intoOwnedAt r i borrowed).map Wire.toVal))
+  | "cloneonto" =>
+    match (Val.ofString arg).bind (Wire.ofVal (α := V)) with
+    | none => some "bad-value"
+    | some t => some (replyVal ((ItemOps.cloneOntoAt r i borrowed t).map Wire.toVal))
+  | _ => none
+
+/-- `owned` / `cloneonto` through `ItemOps`; every other accessor as before -/
+def Extra.withItems (e : Extra R V I) : Extra R V I :=
+  { e with itemOp := fun r i b op arg =>
+      match itemOpsOp r i b op arg with
+      | some out => some out
+      | none => e.itemOp r i b op arg }
+
+/-- `cmp` through the items' own `PartialEq` / `Ord` (`Wrapped.eq`, `Wrapped.cmp`, `Iterator::eq` / `cmp` over
+them); same reply format as `cmpBy`: `cmp <eq> <cmp> <partial_cmp>` -/
+def cmpItemsBy [ItemCmp X] (a : R) (i : I) (ba : Bool) (b : R) (j : I) (bb : Bool) : Option String :=
+  match ItemOps.read a i ba, ItemOps.read b j bb with
+  | some x, some y =>
+    match ItemCmp.eq x y, ItemCmp.cmp x y with
+    | some e, some o =>
+      let c : Int := match o with | .lt => -1 | .eq => 0 | .gt => 1
+      some s!"cmp {if e then 1 else 0} {c} {c}"
+    | _, _ => some "panic"
+  | _, _ => some "panic"
+
+def Extra.withItemCmp [ItemCmp X] (e : Extra R V I) : Extra R V I :=
+  { e with cmpItems := cmpItemsBy }
 end
 
 section
